@@ -805,9 +805,9 @@ def case_rotation(case):
 
 
 def make_case(rng, route, fam, n, *, related="rigid", perm=False, mirror=False, flags=None, maxclass=None, tag=None, pivot=None,
-              special=None, prefix=None):
+              special=None, prefix=None, labs=None):
     R = gen_geometry(rng, fam, n)
-    labs = ["O", "H", "H", "C", "N", "F"][:n] if fam == "nearsym" else gen_classes(rng, n, maxclass)
+    labs = list(labs) if labs is not None else ["O", "H", "H", "C", "N", "F"][:n] if fam == "nearsym" else gen_classes(rng, n, maxclass)
     pm_pre = None
     if prefix:
         # the SECOND geometry's atom order is C[i] = moved(R[pm[i]]): the degenerate atoms must be listed first/last THERE
@@ -942,6 +942,15 @@ def gen_cases(ctx: Ctx):
         fl = {"atoms_map": False, "algorithm": "permutative",
               "mols_align": rng.choice([False, True, True, 1e-5]), "run_to_completion": rng.random() < 0.3}
         yield make_case(rng, "b787", fam, n, related="rigid", perm=True, flags=fl, maxclass=4)
+    # --- P': ONE large class (5-7 atoms of one kind, optionally one odd atom out): the full n! enumeration of a like-atom space,
+    #         every shuffle equally likely (the blocks above cap classes at 4-5 atoms, i.e. at most 120 orderings per space)
+    for _ in range(sc(60, 300)):
+        n = rng.randint(5, 7)
+        labs = [rng.choice(["Ar", "H", "C"])] * n
+        if n < 7 and rng.random() < 0.3:
+            labs[rng.randrange(n)] = "O"
+        fl = {"atoms_map": False, "algorithm": "permutative", "mols_align": rng.choice([False, True, True]), "run_to_completion": rng.random() < 0.2}
+        yield make_case(rng, "b787", rng.choice(["generic", "decimal", "generic", "lattice"]), n, related="rigid", perm=True, flags=fl, labs=labs, tag="bigclass")
     # run_resorting with a fixed map (resorting machinery although atoms are ordered)
     for _ in range(sc(120, 600)):
         n = rng.randint(2, 6)
